@@ -631,3 +631,31 @@ func (m *Model) ConstString(e ast.Expr) (string, bool) {
 	}
 	return s, true
 }
+
+// DropCachesExcept forgets the per-model and per-function caches of the core for all models but the given ones
+// (see rules.DropCachesExcept).
+func DropCachesExcept(kept map[*Model]bool) {
+	keptFunc := func(f *Func) bool {
+		for m := range kept {
+			if f != nil && m.Prog != nil && f.Pkg == m.Prog.Ecs {
+				return true
+			}
+		}
+		return false
+	}
+	for f := range localDefCache {
+		if !keptFunc(f) {
+			delete(localDefCache, f)
+		}
+	}
+	for f := range calleeWriteCache {
+		if !keptFunc(f) {
+			delete(calleeWriteCache, f)
+		}
+	}
+	for m := range fieldOwnerCache {
+		if !kept[m] {
+			delete(fieldOwnerCache, m)
+		}
+	}
+}
